@@ -76,6 +76,34 @@ func resultType(c *ssa.CallCommon) types.Type {
 // doCall dispatches a call and binds ghost names declared for static callee results.
 func (fc *FnCtx) doCall(fr *Frame, st *State, instr ssa.Instruction, c *ssa.CallCommon, fnVal Val, args []Val) Val {
 	prePC := st.pc
+	if fr.top && fr.spec != nil && len(fr.spec.Befores) > 0 && !c.IsInvoke() {
+		name := ""
+		if cv, ok := fnVal.(*ClosureVal); ok && cv.Fn != nil {
+			name = cv.Fn.Name()
+			if i := strings.Index(name, "["); i >= 0 {
+				name = name[:i]
+			}
+		} else if u, ok := c.Value.(*ssa.UnOp); ok {
+			// call through a function-typed local variable: named by the variable
+			if al, ok := u.X.(*ssa.Alloc); ok {
+				name = al.Comment
+			}
+		}
+		if name != "" {
+			for i, b := range fr.spec.Befores {
+				if b.Callee != name {
+					continue
+				}
+				env := fc.topEnv(fr, fr.spec)
+				t := fc.evalClauseEnv(st, fc.entry, b.Clause, env)
+				pos := token.NoPos
+				if instr != nil {
+					pos = instr.Pos()
+				}
+				fc.obligeClause(st, "before", name+":"+clauseLabel(b.Clause, i), t, b.Clause, pos)
+			}
+		}
+	}
 	res := fc.doCallInner(fr, st, instr, c, fnVal, args)
 	if fr.top && fr.spec != nil && len(fr.spec.Relies) > 0 && !c.IsInvoke() {
 		if cv, ok := fnVal.(*ClosureVal); ok && cv.Fn != nil {
@@ -172,7 +200,11 @@ func (fc *FnCtx) doCallInner(fr *Frame, st *State, instr ssa.Instruction, c *ssa
 	if callee == nil {
 		// call through an unknown function value: field contract?
 		if fs := fc.fieldSpecFor(c.Value); fs != nil {
-			return fc.applyContract(fr, st, instr, fs, nil, c.Signature(), nil, args, rt, pos)
+			res := fc.applyContract(fr, st, instr, fs, nil, c.Signature(), nil, args, rt, pos)
+			if et, ok := res.(Term); ok && et.Sort == SErr && isUserCallback(c.Value) {
+				fc.assumeForeignError(st, et)
+			}
+			return res
 		}
 		fc.havocCallees["<func value "+c.Value.Name()+" in "+fr.fn.Name()+">"] = true
 		fc.havocPointees(fr, st, c, args)
@@ -190,7 +222,21 @@ func (fc *FnCtx) doCallInner(fr *Frame, st *State, instr ssa.Instruction, c *ssa
 	}
 	if ex != nil {
 		fc.assumedSpecs["extern "+mname+instSuffix(callee)] = true
-		return fc.applyContract(fr, st, instr, ex, callee, callee.Signature, bindings, args, rt, pos)
+		res := fc.applyContract(fr, st, instr, ex, callee, callee.Signature, bindings, args, rt, pos)
+		// a dependency cannot return the repository's unexported sentinel errors
+		switch rv := res.(type) {
+		case Term:
+			if rv.Sort == SErr {
+				fc.assumeForeignError(st, rv)
+			}
+		case *TupleVal:
+			for _, el := range rv.Elems {
+				if et, ok := el.(Term); ok && et.Sort == SErr {
+					fc.assumeForeignError(st, et)
+				}
+			}
+		}
+		return res
 	}
 	if isNoopCallee(callee) {
 		return havocRes("noop")
